@@ -4,6 +4,10 @@ import json, os, sys
 HERE = os.path.dirname(os.path.abspath(__file__))
 
 CHECKS = {
+ 'C11': dict(technique='runtime monitor: reference state machine for expect inference + fresh-instance differential over exhaustive event sequences; read-only fingerprints of author config objects, evaluator scopes (tap on MathExpression.eval), sibling instances and all process-wide library state at quiescent points',
+             text='Exploration by runtime monitoring: every event sequence of length <=3 (<=4 thorough) over (expect absent/valid/other valid/unusable) x (right/other right/wrong/malformed input) for six item-grader classes x answers configured or not x debug on/off is executed on one instance and each step compared with a freshly constructed grader given the expect the state machine says is in force (with debug=True the log must describe the current call only); random histories over graders sharing subgrader instances, debug subgraders, negative-power switches with raising calls, registered class defaults and reused config dictionaries; fingerprints of configs, scopes and process-wide settings must not change.',
+             note='Trusted: a fresh grader (real code) as the history-free reference; the definition of a "successfully supplied" expect given in the evidence assumptions; fingerprints are read-only.',
+             ref='DESIGN.md section 4, C11'),
  'C02': dict(technique='runtime monitor: tap on the top-level instance\'s check() records the exception raised inside the guarded region and compares it with what escapes the call (class, <br/> message, generic message naming the submission); class table for constructed faults; CPU watchdog per call',
              text='Exploration by runtime monitoring: generated configurations of every grader class and nesting (debug off) are called with hostile strings (grammar-derived formulas pushed to poles/overflow/0-over-0/complex-where-real, shape-incompatible arrays, bracket damage, nesting depth 20000, 3000-term sums, unknown names, wrong arities, blank list items, stray delimiters, non-ASCII digits/operators/whitespace, control characters), with expect in {None, valid, malformed}, and with non-text / wrongly nested input objects on fresh instances (configured and expect-inferring); the evidence lists the inner exception classes actually provoked (ValueError, TypeError, RecursionError, IndexError, LinAlgError, OverflowError ...) and seen being wrapped.',
              note='Trusted: readings R3; exclusions recorded in evidence assumptions (SumGrader limit fields and list lengths kept small because the work is polynomial in a student-chosen size).',
